@@ -5,6 +5,7 @@ import sys
 from .. import terms as T
 from ..terms import sym, add, mul, sub
 from .common import *
+from .C12 import DRV_OPAQUE
 
 sys.path.insert(0, os.path.dirname(os.path.dirname(os.path.dirname(os.path.abspath(__file__)))))
 from spec import formulas as F   # noqa
@@ -100,6 +101,26 @@ def check(ctx):
                             na[2], F.split_after(N, F.split_sub_calls(N, r, W), r, W))
             ctx.guard('R1.sub_calls', fsite(d), drv)
     ctx.count('mpi driver kernel call sites', nsites, 6)
+    # no share, call count or stream position passes through a narrower integer type (they are
+    # products of size_t quantities that exceed 2^31 in long runs)
+    nn = 0
+    for name in ('hep::discard_before', 'hep::discard_after', 'hep::random_number_usage') + tuple(MPI_DRIVERS):
+        for f in instances(p, name):
+            nn += 1
+
+            def rn(f=f, name=name):
+                s, ex = summarise(p, f, opaque=(DRV_OPAQUE if name in MPI_DRIVERS else ()))
+                nar = [e for e, l in flat_effects(s.effects) if e['kind'] == 'narrow']
+                if nar:
+                    ctx.violation('R5.no_narrowing', '%s:%s' % (nar[0]['where'], name.replace('hep::', '')),
+                                  'a call count / stream position is converted from %s to %s: values beyond the '
+                                  'narrower range (2^31 calls) are truncated and the shares no longer tile the '
+                                  'stream' % (nar[0]['frm'], nar[0]['to']),
+                                  {'value': T.pretty(nar[0]['operand'])[:200]})
+                else:
+                    ctx.holds('R5.no_narrowing', fsite(f), 'no integer narrowing of counts or positions')
+            ctx.guard('R5', fsite(f), rn)
+    ctx.count('functions checked for integer narrowing', nn, 9)
     # shared with C04: the per-call usage factor must be what the kernel really draws per call, and
     # rank / size must come from the communicator that was passed in (otherwise the shares do not tile)
     from .common import share
